@@ -46,6 +46,9 @@ def cname(F, n):
 LEN_NAMES = {"slice::len", "Vec::len"}
 
 
+DEFAULT_INLINER_FACTORY = None
+
+
 class Termizer:
     """Converts expression nodes to terms under an environment of immutable-local substitutions."""
 
@@ -53,6 +56,14 @@ class Termizer:
         self.F = F
         self.env = {}       # local id -> term
         self.mut_locals = set()
+        if inline is None and DEFAULT_INLINER_FACTORY is not None and not getattr(F, "_building_inliner", False):
+            # every term is computed with the crate's small pure helpers expanded: "extract a helper" and
+            # "inline a helper" are then the same program to every rule
+            F._building_inliner = True
+            try:
+                inline = DEFAULT_INLINER_FACTORY(F)
+            finally:
+                F._building_inliner = False
         self.inline = inline  # optional Inliner
         self.keep_narrowing = False
         self.closures = {}     # local id -> Closure node (for calls of local closures)
@@ -82,7 +93,10 @@ class Termizer:
                 return ("def", strip_generics(F.defpath(n) or n.get("name", "?")))
             return ("def", n.get("seg", "?"))
         if k == "Field":
-            return ("field", self.term(n["e"]), n["name"])
+            bt_ = self.term(n["e"])
+            if bt_[0] == "tup" and str(n["name"]).isdigit() and int(n["name"]) < len(bt_) - 1:
+                return bt_[1 + int(n["name"])]
+            return ("field", bt_, n["name"])
         if k == "Index":
             bt = self.term(n["e"])
             it = self.term(n["i"])
